@@ -36,8 +36,18 @@ void run_history(Run &R, int maxops) {
     s.add(CO_KEY(0x1010, i + 1, CO_OBJ_____RW), CO_TPARA_STORE, (CO_DATA)p);
     s.add(CO_KEY(0x1011, i + 1, CO_OBJ_____RW), CO_TPARA_RESTORE, (CO_DATA)p);
   }
-  s.add(CO_KEY(0x1010, 0, CO_OBJ_D___R_), CO_TPARA_STORE, (CO_DATA)(ng + 1));
-  s.add(CO_KEY(0x1011, 0, CO_OBJ_D___R_), CO_TPARA_RESTORE, (CO_DATA)(ng + 1));
+  // highest sub-index: a direct constant, or - for a quarter of the node ids, no tape choice - a variable the entry refers to, placed at a chosen
+  // position within a 256-byte line (what the entry's data field then holds is an address, of which no bit means anything to the library)
+  if (s.nodeid % 4 == 1) {
+    uint8_t *arena = s.alloc(1024, "para-count", false); uint8_t *line = (uint8_t *)(((uintptr_t)arena + 255) & ~(uintptr_t)255);
+    uint8_t *n0 = line + ((s.nodeid * 37u) & 0xFFu), *n1 = line + 256 + ((s.nodeid * 91u + 128u) & 0xFFu); *n0 = *n1 = (uint8_t)(ng + 1);
+    s.add(CO_KEY(0x1010, 0, CO_OBJ_____R_), CO_TPARA_STORE, (CO_DATA)n0);
+    s.add(CO_KEY(0x1011, 0, CO_OBJ_____R_), CO_TPARA_RESTORE, (CO_DATA)n1);
+    c.cls("highest-sub-index-stored-by-reference");
+  } else {
+    s.add(CO_KEY(0x1010, 0, CO_OBJ_D___R_), CO_TPARA_STORE, (CO_DATA)(ng + 1));
+    s.add(CO_KEY(0x1011, 0, CO_OBJ_D___R_), CO_TPARA_RESTORE, (CO_DATA)(ng + 1));
+  }
   s.nvm.assign(off + 8, 0); for (auto &b : s.nvm) b = (uint8_t)iv.next();
   std::vector<uint8_t> mnv = s.nvm;                       // model of the NVM image
   std::vector<int> defcalls(ng + 1, 0);
@@ -51,7 +61,7 @@ void run_history(Run &R, int maxops) {
   arm(); w.finish(); bool hit = done();
   SdoClient cl(s, w.req[0], w.rsp[0]);
   if (hit) { CHECK(c, s.init_err != CO_ERR_NONE, "short-read-surfaced", "a short NVM read during initialisation was not reported as node error"); }
-  else { CHECK(c, s.init_err == CO_ERR_NONE, "harness", "initialisation reported error %d", s.init_err); for (int i = first; i <= ng; i++) CHECK(c, ram_equals_nvm(i), "restart-reloads-last-image", "after initialisation group %d differs from its NVM image", i); }
+  else { CHECK(c, s.init_err == CO_ERR_NONE, "restart-reloads-last-image", "initialisation without any NVM fault reported error %d (the parameter groups are then not all loaded from their NVM image)", s.init_err); for (int i = first; i <= ng; i++) CHECK(c, ram_equals_nvm(i), "restart-reloads-last-image", "after initialisation group %d differs from its NVM image", i); }
   CONodeGetErr(s.node);
   bool stored = false;
   int nops = 1 + (int)c.t.below(maxops);
